@@ -9,7 +9,7 @@ import (
 func init() { register("C01", propC01) }
 
 func propC01(c *Ctx) {
-	c.Explanation = "Decides structural necessary conditions of the byte-stream property for all inputs and schedules: (R1) the segment invariant 'first byte of data has sequence number sequenceNumber' - every front trim of a segment's data is paired, under the same guards and with the same amount, with an advance of that segment's sequence number (receiver trim of already-received bytes, sender split at window/MSS boundaries, sender partial-ACK trim); (R2) ownership for all schedules: every access to sender/receiver state happens with endpoint.workMu held (must-lockset with held-at-entry fixpoint over the call graph; frozen entry assumptions for the worker goroutines; three reviewed cut edges/exceptions), and the queues shared with the application (rcvList/rcvBufUsed/..., sndQueue/sndBufUsed/..., segmentQueue) are touched only under their mutexes; (R3) hand-off discipline: the complete reviewed site tables of receiver.consumeSegment, receiver.handleRcvdSegment, endpoint.readyToRead, readLocked and the sender's split/advance sites - data reaches the reader only through readyToRead(PushBack) from consumeSegment, exactly when the segment contains rcvNxt, rcvNxt advances by exactly the bytes handed over, parked segments are consumed with their own sequence number and length, the reader takes the front segment view by view; (R4) no raw ordering of sequence numbers in package tcp. (R5) link typestate: no function reads the list links of a segment after removing it from its list unless segmentList.Remove preserves the removed element's links, so cursor fix-ups such as writeNext = seg.Next() yield the true successor; the sender's sequence variables start at iss+1 (newSender rows of R3). NOT decided: that acceptance, trimming amounts, heap order and retransmission produce the right bytes over all fault schedules (numerical relations between runtime values), nothing about the peer or the wire."
+	c.Explanation = "Decides structural necessary conditions of the byte-stream property for all inputs and schedules: (R1) the segment invariant 'first byte of data has sequence number sequenceNumber' - every front trim of a segment's data is paired, under the same guards and with the same amount, with an advance of that segment's sequence number (receiver trim of already-received bytes, sender split at window/MSS boundaries, sender partial-ACK trim); (R2) ownership for all schedules: every access to sender/receiver state happens with endpoint.workMu held (must-lockset with held-at-entry fixpoint over the call graph; frozen entry assumptions for the worker goroutines; three reviewed cut edges/exceptions), and the queues shared with the application (rcvList/rcvBufUsed/..., sndQueue/sndBufUsed/..., segmentQueue) are touched only under their mutexes; (R3) hand-off discipline: the complete reviewed site tables of receiver.consumeSegment, receiver.handleRcvdSegment, endpoint.readyToRead, readLocked and the sender's split/advance sites - data reaches the reader only through readyToRead(PushBack) from consumeSegment, exactly when the segment contains rcvNxt, rcvNxt advances by exactly the bytes handed over, parked segments are consumed with their own sequence number and length, the reader takes the front segment view by view; (R4) no raw ordering of sequence numbers in package tcp. (R5) link typestate: no function reads the list links of a segment after removing it from its list unless segmentList.Remove preserves the removed element's links, so cursor fix-ups such as writeNext = seg.Next() yield the true successor; the sender's sequence variables start at iss+1 (newSender rows of R3). (R6) a segment's sequence-space length is payload + SYN + FIN, all four flag combinations on their own paths (shared with C03/H8, C02/W7); R3 also tables segment.clone (sequence number, flags, own view list), segment.parse (fields from the header getters, payload after the data offset) and the receiver's first expected byte irs+1. NOT decided: that acceptance, trimming amounts, heap order and retransmission produce the right bytes over all fault schedules (numerical relations between runtime values), nothing about the peer or the wire."
 	c.Assumptions = []string{
 		"newEndpoint returns with workMu locked; protocolMainLoop/protocolListenLoop own it from their first instruction (frozen entry assumption, rule R2-entry)",
 		"field loads of sender/receiver state are stable while workMu is held",
@@ -104,6 +104,31 @@ func propC01(c *Ctx) {
 		sp = append(sp, SiteSpec{Kind: "store", Target: "tcp.sender.maxSentAck", Args: []string{"new(tcp.sender)", "($2 + 1)"}, Guards: []string{}, Exact: true, N: 1, Why: "the peer's SYN consumed irs"})
 		c.CheckSitesPresent(r3, fn, sp)
 	}
+	if fn := c.Fn(r3, "(*tcp.segment).parse"); fn != nil {
+		h := "buffer.VectorisedView.First($0.data)"
+		off := "header.TCP.DataOffset(" + h + ")"
+		g := []string{"!(builtin:len(" + h + ") < " + off + ")", "!(" + off + " < 20)"}
+		var sp []SiteSpec
+		for _, f := range [][2]string{{"sequenceNumber", "SequenceNumber"}, {"ackNumber", "AckNumber"}, {"flags", "Flags"}, {"window", "WindowSize"}} {
+			sp = append(sp, SiteSpec{Kind: "store", Target: "tcp.segment." + f[0], Args: []string{"$0", "header.TCP." + f[1] + "(" + h + ")"}, Guards: g, Exact: true, N: 1, Why: "the segment's " + f[0] + " is the header's own field (bit layout: C15), taken only from a header that fits the first view"})
+		}
+		sp = append(sp, SiteSpec{Kind: "call", Target: "(*buffer.VectorisedView).TrimFront", Args: []string{"&$0.data", off}, Guards: g, Exact: true, N: 1, Why: "the payload starts exactly after the TCP header incl. options (data offset)"})
+		c.CheckSitesPresent(r3, fn, sp)
+	}
+	if fn := c.Fn(r3, "(*tcp.segment).clone"); fn != nil {
+		n := "new(tcp.segment)"
+		c.CheckSitesPresent(r3, fn, []SiteSpec{
+			{Kind: "store", Target: "tcp.segment.sequenceNumber", Args: []string{n, "$0.sequenceNumber"}, Guards: []string{}, Exact: true, N: 1, Why: "the split-off copy keeps the label of the bytes it starts with (sendData then advances it by the split amount, R1)"},
+			{Kind: "store", Target: "tcp.segment.flags", Args: []string{n, "$0.flags"}, Guards: []string{}, Exact: true, N: 1, Why: "the copy keeps the flags: sendData treats flags == 0 as 'never sent, label with sndNxt', so the remainder of an already-sent segment must keep its non-zero flags and with them its own sequence number"},
+			{Kind: "store", Target: "tcp.segment.data", Args: []string{n, "buffer.VectorisedView.Clone($0.data, " + n + ".views[:])"}, Guards: []string{}, Exact: true, N: 1, Why: "the copy has its own view list over the same bytes, so trimming one does not trim the other"},
+			{Kind: "store", Target: "tcp.segment.refCnt", Args: []string{n, "1"}, Guards: []string{}, Exact: true, N: 1, Why: "a fresh segment is owned once"},
+		})
+	}
+	if fn := c.Fn(r3, "tcp.newReceiver"); fn != nil {
+		c.CheckSitesPresent(r3, fn, []SiteSpec{
+			{Kind: "store", Target: "tcp.receiver.rcvNxt", Args: []string{"new(tcp.receiver)", "($1 + 1)"}, Guards: []string{}, Exact: true, N: 1, Why: "the peer's SYN consumed irs: the first byte handed to the reader is labelled irs+1"},
+		})
+	}
 	c.OnlyIn(r3, "tcp rcvList insertion", c.CallSites(func(s string) bool {
 		return strings.HasPrefix(s, "(*tcp.segmentList).Push") || strings.HasPrefix(s, "(*tcp.segmentList).Insert")
 	}), "(*tcp.endpoint).readyToRead", "(*tcp.endpoint).Write", "(*tcp.endpoint).Shutdown", "(*tcp.sender).sendData", "(*tcp.sender).handleWrite", "(*tcp.endpoint).handleWrite", "(*tcp.endpoint).handleClose", "(*tcp.segmentQueue).enqueue", "(*tcp.endpoint).protocolMainLoop")
@@ -134,6 +159,10 @@ func propC01(c *Ctx) {
 	// ---- R5
 	r5 := c.Rule("R5", "typestate", "a segment's list links are not read after its removal unless Remove preserves them (cursor fix-ups such as writeNext = seg.Next())", 3)
 	c.LinkTypestate(r5, "tcp.segmentList", "tcp.segmentEntry")
+
+	// ---- R6
+	r6 := c.Rule("R6", "K9 path table (shared with C03/H8, C02/W7)", "a segment's sequence-space length = payload + SYN + FIN: what rcvNxt and sndUna advance by", 5)
+	logicalLenRule(c, r6)
 
 	// ---- R4
 	r4 := c.Rule("R4", "lint", "no raw ordering of seqnum.Value in package tcp", 10)
